@@ -161,4 +161,22 @@ def Island.Ok (cfg : TagCfg) (i : Island) : Prop :=
 def Island.flat (i : Island) : List (TagEvent × Ns) :=
   (startEv i.name i.attrs false, i.ns.toNs) :: (i.children.flat i.ns ++ [(endEv i.name, .html)])
 
+
+/-- A document of the C03 domain as the simulator sees it: arbitrary tags in the HTML namespace
+(tag soup: any hash, any lexeme view, start or end) that are not `svg`/`math` start tags, and
+well-nested islands. -/
+inductive DocItem
+  | tag (ev : TagEvent)
+  | island (i : Island)
+
+def DocItem.Ok (cfg : TagCfg) : DocItem → Prop
+  | .tag ev => ev.view.isStart = true → ev.hash ≠ cfg.svg ∧ ev.hash ≠ cfg.math
+  | .island i => i.Ok cfg
+
+def DocItem.flat : DocItem → List (TagEvent × Ns)
+  | .tag ev => [(ev, .html)]
+  | .island i => i.flat
+
+def docFlat (d : List DocItem) : List (TagEvent × Ns) := d.flatMap DocItem.flat
+
 end LolHtml.Spec.Island
